@@ -1154,6 +1154,17 @@ class BlockwiseRequest(BaseUnicastRequest, interfaces.Request):
             log.error("Error assembling blockwise response (unexpected first block)")
             raise error.UnexpectedBlock2()
 
+        if (
+            requested_block2 is not None
+            and initial_response.opt.block2.size_exponent
+            > requested_block2.size_exponent
+        ):
+            # Like for the later blocks (RFC 7959 Section 2.4): when the
+            # request itself asked for a block size, the server may answer in
+            # smaller blocks, never in larger ones.
+            log.error("Error assembling blockwise response (block size grew)")
+            raise error.UnexpectedBlock2("Block size larger than requested")
+
         if initial_response.opt.block2.more is False:
             initial_response.opt.block2 = None
             return initial_response
